@@ -9,6 +9,7 @@ identical getters and, `step` being a function, bit-identical futures.
 -/
 import RubatoProofs.Lemmas.Shape
 import RubatoProofs.Fft.Control
+import RubatoProofs.Lemmas.FormulaTie
 
 namespace Rubato.C10
 open Rubato
@@ -174,5 +175,21 @@ theorem fft_reset_returns_fresh_state {σ υ : Type} {u : FftUnit σ υ} {z : σ
     (cs : List (Call σ)) (hv : ValidHist u s cs) :
     FState.reset DivArith.exact u z (runCalls u s (0, 0) cs).1 = s :=
   reset_after_history h cs hv
+
+end Rubato.C10
+
+namespace Rubato.C10
+open Rubato Rubato.Gen
+
+/-- tie G7: the read position a constructor starts from and the one `reset()` restores are the same regenerated
+expression `-(L/2)` (all four asynchronous types; `L = POLYNOMIAL_LEN` for the polynomial ones) -/
+theorem reset_restores_the_constructor_position {ρ : Type} [RNum ρ] (L : Nat) :
+    (Formulas.sincIn_reset_last_index L : ρ) = Formulas.sincIn_new_last_index L ∧
+    (Formulas.sincOut_reset_last_index L : ρ) = Formulas.sincOut_new_last_index L ∧
+    (Formulas.fastIn_reset_last_index : ρ) = Formulas.fastIn_new_last_index ∧
+    (Formulas.fastOut_reset_last_index : ρ) = Formulas.fastOut_new_last_index ∧
+    (- RNum.ofNat (L / 2) : ρ) = Formulas.sincIn_new_last_index L ∧
+    (- RNum.ofNat (Fast.polyLen / 2) : ρ) = Formulas.fastIn_new_last_index :=
+  ⟨rfl, rfl, rfl, rfl, rfl, rfl⟩
 
 end Rubato.C10
